@@ -493,9 +493,16 @@ impl Store {
                     }
                 } else if tagname == b"a" {
                     if let Some(naddr_bytes) = tag.next() {
-                        if let Ok(addr) = Addr::try_from_bytes(naddr_bytes) {
+                        if let Ok(mut addr) = Addr::try_from_bytes(naddr_bytes) {
                             if addr.author != event.pubkey() {
                                 return Err(InnerError::InvalidDelete.into());
+                            }
+
+                            // A replaceable (non-parameterized) address has no identifier.
+                            // The removal below and the check in store_event both go by
+                            // (author, kind), so the marker must too.
+                            if addr.kind.is_replaceable() {
+                                addr.d.clear();
                             }
 
                             // Mark deleted
